@@ -72,6 +72,10 @@ def run_sequence(spec, steps):
       how = "separate": the argument is a separately loaded, equal molecule (own topology, bonds listed in reverse order);
       how = "object" : the argument is the very Molecule object the map was built from, as it currently is;
       how = "inplace": that object is first moved in place (ref_object.atoms_positions = step["pos"]), then passed.
+    A step may carry "pre": actions done before its call WITHOUT calling the map - {"act": "ref_inplace", "pos", "via"}
+    (the construction reference modified in place via atoms_positions / atom by atom / move), {"act": "tgt_inplace", "pos"}
+    (the construction target modified in place), {"act": "read_eq"} (the public equivalences read).  The construction-time
+    data of the map are, by definition, the geometries at construction (spec["ref"], spec["tgt"]).
     Returns dict(err=..., bondsets) or dict(eq, bondsets, db, map, held, held_problems, calls=[dict(how, pos
     (conformation actually passed), out (positions read right after the call), out_end (positions of the same returned
     Molecule re-read at the END of the sequence), da)])."""
@@ -88,7 +92,18 @@ def run_sequence(spec, steps):
             return {"err": err_class(ex), "bondsets": bondsets}
         db = list(rec.calls)
         calls, held, problems = [], [], []
+        tgt_expected = np.array(spec["tgt"], dtype=float)
+        eq_reads = []
         for st in steps:
+            # things the caller does to the construction molecules between construction / calls, WITHOUT calling the map
+            for act in st.get("pre", []):
+                if act["act"] == "ref_inplace":
+                    apply_inplace(ref, act)
+                elif act["act"] == "tgt_inplace":
+                    tgt_expected = np.array(act["pos"], dtype=float)
+                    tgt.atoms_positions = tgt_expected.copy()
+                elif act["act"] == "read_eq":
+                    eq_reads.append(m.equivalences)
             if st["how"] == "copy":
                 arg = ref.copy()
                 arg.atoms_positions = np.array(st["pos"], dtype=float)
@@ -116,7 +131,24 @@ def run_sequence(spec, steps):
     for i, mol in enumerate(held):
         calls[i]["out_end"] = np.array(mol.atoms_positions, dtype=float)
     return {"eq": m.equivalences, "bondsets": bondsets, "db": db, "calls": calls, "map": m,
-            "tgt_after": np.array(tgt.atoms_positions, dtype=float), "held": held, "held_problems": problems}
+            "tgt_after": np.array(tgt.atoms_positions, dtype=float), "held": held, "held_problems": problems,
+            "tgt_unchanged": bool(np.array_equal(np.array(tgt.atoms_positions, dtype=float), tgt_expected)),
+            "eq_stable": all(e == m.equivalences for e in eq_reads)}
+
+
+def apply_inplace(ref, act):
+    """in-place modification of the construction reference through one of the public ways"""
+    pos = np.array(act["pos"], dtype=float)
+    via = act.get("via", "array")
+    if via == "atoms":                      # atom by atom: mol[i].position = ...
+        for i in range(len(ref)):
+            ref[i].position = pos[i].copy()
+    elif via == "move":                     # rigid shift with Molecule.move, then the exact positions
+        ref.move(pos[0] - np.array(ref.atoms_positions, dtype=float)[0])
+        ref.atoms_positions = pos
+    else:
+        ref.atoms_positions = pos
+
 
 
 def held_problems(held, calls, last):
@@ -167,19 +199,47 @@ PATTERNS = [["copy"], ["copy"], ["object", "copy", "object"], ["copy", "object"]
             ["deepcopy"], ["separate", "deepcopy"]]
 
 
+def make_pre(rs, spec, conf_fn, flags):
+    """flags: letters before ':' in a pattern token - M: construction reference modified in place (to a new
+    conformation), T: construction target modified in place (shifted + jittered), E: equivalences read"""
+    pre = []
+    if "E" in flags:
+        pre.append({"act": "read_eq"})
+    if "M" in flags:
+        pre.append({"act": "ref_inplace", "pos": np.array(conf_fn(rs, spec), dtype=float).tolist(),
+                    "via": str(rs.choice(["array", "atoms", "move"]))})
+    if "T" in flags:
+        tgt = np.array(spec["tgt"], dtype=float)
+        pre.append({"act": "tgt_inplace", "pos": (tgt + rs.normal(size=3) + rs.normal(size=tgt.shape) * 0.05).tolist()})
+    return pre
+
+
+def split_token(tok):
+    flags, _, how = tok.rpartition(":")
+    return flags, how
+
+
+PATTERNS += [["inplace"], ["E:inplace", "copy"], ["M:copy", "object"], ["T:copy"], ["TM:deepcopy", "inplace"],
+             ["ET:inplace", "object", "copy"]]
+
+
 def make_steps(rs, spec, conf_fn, pattern=None):
     """a call sequence on one map object; conf_fn(rs, spec) draws a new conformation.  "restore" puts the
-    construction-time positions back in place."""
+    construction-time positions back in place; a token "FLAGS:how" first performs the pre-call actions of make_pre."""
     if pattern is None:
         pattern = PATTERNS[rs.randint(len(PATTERNS))]
     steps = []
-    for how in pattern:
+    for tok in pattern:
+        flags, how = split_token(tok)
         if how == "object":
-            steps.append({"how": "object"})
+            st = {"how": "object"}
         elif how == "restore":
-            steps.append({"how": "inplace", "pos": np.array(spec["ref"], dtype=float).tolist()})
+            st = {"how": "inplace", "pos": np.array(spec["ref"], dtype=float).tolist()}
         else:
-            steps.append({"how": how, "pos": np.array(conf_fn(rs, spec), dtype=float).tolist()})
+            st = {"how": how, "pos": np.array(conf_fn(rs, spec), dtype=float).tolist()}
+        if flags:
+            st["pre"] = make_pre(rs, spec, conf_fn, flags)
+        steps.append(st)
     return steps
 
 
